@@ -14,15 +14,15 @@ TOPOS = [
         "prep cpukind 0-3 1 CoreType big", "prep cpukind 4-7 0 CoreType small",
         "prep info hwvinfo hello", "prep tinfo hwvtinfo world", "prep subtype MySub", "prep userdata"]),
     ("plain", False, [
-        "load 0 0 synthetic pack:2 core:2 pu:2"]),
+        "load 0 0 synthetic pack:2 core:2 pu:2", "prep info hwvroot r"]),
     ("restricted-stale+disallowed", True, [
         "load 1 0 synthetic [numa] pack:2 [numa] core:2 pu:2",
         "prep dist 5 4 8 0", "prep dist 9 3 4 0", "prep memattr 5 3 1", "prep cpukind 0-1 -1 FrequencyMaxMHz 3000", "prep cpukind 2-7 -1 FrequencyMaxMHz 2000",
-        "prep allow 4 0-5 -",
+        "prep allow 4 0-5 -", "prep info hwvroot r",
         "prep restrict 0 0-5"]),                      # caches of distances / memattrs are stale when the topology is measured and written
     ("keepall-misc-group", False, [
         "load 0 1 synthetic pack:2 numa:2 l2:1 l1i:1 l1d:1 core:1 pu:2",
-        "prep misc hwvmisc", "prep group 0-3", "prep memvalue Latency 0 30", "prep memattr 1 4 0", "prep dist 5 14 4 1",
+        "prep misc hwvmisc", "prep group 0-3", "prep info hwvroot r", "prep memvalue Latency 0 30", "prep memattr 1 4 0", "prep dist 5 14 4 1",
         "prep restrict 8 0-2", "prep refresh", "prep userdata"]),
 ]
 MODS = ["prep info hwvmod v%d", "prep cpukind 0 3 Mod m%d", "prep memattr 2 1 0 # %d", "prep misc mod%d"]
@@ -149,9 +149,29 @@ def corpus_behaviours(thorough, rng):
         else:
             load = "load %d 1 synthetic %s" % (1 if n % 2 == 0 else 0, s["desc"])
         off = [0, 1, 3][n % 3]
-        lines = ["reset", load, "prep userdata", "snapshot", "get_length 0", "write 0 %d 0 %d 0 0 0 0 1 0 %d" % (off, n % 2, 2 if n % 4 == 0 else 0), "adopter",
-                 "adopt 0 0 0 0 %d 0 0 0 0 1 0" % (n % 2), "call 0 check 0 0", "call 0 restrict 0 0 0", "call 0 refresh 0 0", "call 0 allow 1 0 - -", "call 0 dup 1 0",
+        lines = ["reset", load, "prep userdata", "prep info hwvroot r", "snapshot", "get_length 0", "write 0 %d 0 %d 0 0 0 0 1 0 %d" % (off, n % 2, 2 if n % 4 == 0 else 0), "adopter",
+                 "adopt 0 0 0 0 %d 0 0 0 0 1 0" % (n % 2), "call 0 check 0 0", "call 0 restrict 0 0 0", "call 0 diff_apply 0 0", "call 0 refresh 0 0", "call 0 allow 1 0 - -", "call 0 dup 1 0",
                  "destroy 0", "adopt 1 0 0 0 %d 0 0 0 0 0 0" % (n % 2), "call 1 observe 0 0", "end"]
+        behs.append("\n".join(lines) + "\n")
+    # this machine (is_thissystem: binding hooks and HWLOC_ALLOW_FLAG_LOCAL_RESTRICTIONS reach the operating system from the adopted copy)
+    for fl in (1, 0):
+        lines = ["reset", "load %d 1 native" % fl, "prep userdata", "snapshot", "get_length 0", "write 0 1 0 0 0 0 0 0 1 0 0", "adopter",
+                 "adopt 0 0 0 0 0 0 0 0 0 1 0", "call 0 bind_get 1 0", "call 0 allow 2 0 - -", "call 0 check 0 0", "call 0 allow 1 0 - -", "call 0 restrict 0 0 0",
+                 "call 0 dup 1 0", "call 0 refresh 0 0", "destroy 0", "adopt 0 0 0 0 0 0 0 0 0 0 0", "call 0 observe 0 0", "end"]
+        behs.append("\n".join(lines) + "\n")
+    return behs
+
+
+def sweep_behaviours(thorough):
+    """the needed size moves in steps of 8 bytes across one page (an info value that grows): whatever the alignment of the used area,
+    some behaviour has it end within 8 bytes of a page boundary, where an underestimated get_length() makes write() hit the guard page"""
+    behs = []
+    step = 8
+    for n, k in enumerate(range(0, 4096 + step, step)):
+        off = [0, 1, 3][n % 3]
+        desc = ["pu:2", "core:2 pu:2", "node:2 pu:1"][(n // 3) % 3] if thorough else "pu:2"
+        lines = ["reset", "load %d 0 synthetic %s" % (n % 2, desc), "prep info hwvpad %s" % ("x" * k if k else "y"), "snapshot", "get_length 0",
+                 "write 0 %d 0 0 0 0 0 0 1 0 0" % off, "adopter", "adopt 0 0 0 0 0 0 0 0 0 1 0", "destroy 0", "end"]
         behs.append("\n".join(lines) + "\n")
     return behs
 
@@ -214,6 +234,8 @@ def run(ctx, replay=None):
             behs.append(render(h, topos[n % len(topos)], n))
     nmodel = len(behs)
     behs += corpus_behaviours(thorough, rng)
+    ncorpus = len(behs) - nmodel
+    behs += sweep_behaviours(thorough)
 
     ctx.samples = [behs[0], behs[nmodel // 2], behs[-1]]
     bf = ctx.path("behaviours.txt")
@@ -226,10 +248,11 @@ def run(ctx, replay=None):
         rule="behaviours = edges of the state graph of MC_Shmem.tla explored exhaustively in five focused configurations (all write variants x 3 page-aligned offsets; all 13 adopt "
              "deviations x 3 preparations of the address range with up to 2 failures and re-adoption after destroy; damaged/repaired header and ABI bytes seen by two adopter processes; "
              "the whole alphabet of %d public calls on the adopted topology, 3 in a row; two images at two addresses with two adopted topologies alive), seeded samples of them in the quick "
-             "tier, plus TLC-simulated long walks over everything, plus every bundled XML input and synthetic family written and adopted once. Each is replayed on the rebuilt library "
+             "tier, plus TLC-simulated long walks over everything, plus every bundled XML input and synthetic family written and adopted once, plus a sweep of the needed size in 8-byte "
+             "steps across one page (so that the used area ends right below a page boundary in some behaviour). Each is replayed on the rebuilt library "
              "(write and adopt in separate forked processes, PROT_NONE pages around the target range) and every event validated by TLC against TraceShmem.tla. "
              "Non-trivial = contains at least one write and one adopt." % len(ALL_CALLS),
         assumptions=["cross-ABI adoption is simulated by flipping a bit of the ABI word / header fields in the file, not by a second build",
                      "object-level calls without a topology argument (hwloc_obj_add_info on an object of the mapping) are documented as not usable and are not driven",
                      "ENOMEM paths are not driven; the adopter is always a fork of the master (same address-space layout)"],
-        extra={"behaviours": len(behs), "model_edges": per_cfg, "corpus_behaviours": len(behs) - nmodel})
+        extra={"behaviours": len(behs), "model_edges": per_cfg, "corpus_behaviours": ncorpus, "size_sweep_behaviours": len(behs) - nmodel - ncorpus})
